@@ -16,11 +16,11 @@ import RtrModel.Hashlin
 import RtrModel.PduConv
 import RtrModel.Spki
 import RtrModel.Proto
-import RtrProofs.CLinkIo
-import RtrProofs.CLinkFsm
-import RtrProofs.CLinkSync
-import RtrProofs.CLinkRecv
-import RtrProofs.CLinkErr
+import RtrSpec.CLinkIo
+import RtrSpec.CLinkFsm
+import RtrSpec.CLinkSync
+import RtrSpec.CLinkRecv
+import RtrSpec.CLinkErr
 
 open Rtr Rtr.Gen Rtr.Proto Rtr.P
 
